@@ -154,9 +154,9 @@ func (t *Table) removeColumn(colName string) {
 		t.Columns = append(t.Columns, col)
 		t.columnIndexes[colName] = len(t.Columns) - 1
 
-	case t.Columns[id].Action == MigrateAddAction:
-		// created and dropped within the same history: forget the column, as the database does, together with
-		// its place in indexes (an index left without columns disappears) and the foreign keys on it
+	case t.Columns[id].Action == MigrateAddAction || t.Columns[id].Action == MigrateRenameAction:
+		// created (and possibly renamed) and dropped within the same history: forget the column, as the database
+		// does, together with its place in indexes (an index left without columns disappears) and the foreign keys on it
 		t.Columns = append(t.Columns[:id], t.Columns[id+1:]...)
 		delete(t.columnIndexes, colName)
 		for k, v := range t.columnIndexes {
